@@ -300,8 +300,9 @@ def campaign_chunk(arg):
                 v = None
             if v:
                 sig = v[0]
-                if f9_present and tool == "exp2python" and has_attribute(text) and not sig.startswith(("hang", "rejected", "exit-status")):
-                    sig = F9_SIG      # while F9 is in the tree every such failure of exp2python is attributed to it
+                if f9_present and tool == "exp2python" and sig.startswith("signal-"):
+                    sig = F9_SIG      # while F9 is in the tree every death of exp2python by a signal (truncated strdup() pointer -> SEGV -> the
+                    # tool's handler -> abort) is attributed to it; sanitizer reports keep their own buckets
                 fails.append({"sig": sig, "what": "[%s %s %s] %s" % (kind, tool, " ".join(opts), v[1]), "data": data, "tool": tool, "opts": list(opts),
                               "kind": kind})
         return {"ev": ev.partial(), "fails": fails}
@@ -456,7 +457,7 @@ def main(tier, seed):
         ev.extra["shipped"].append({"schema": os.path.basename(p), "tool": t, "status": res["status"], "cpu_s": res["cpu"]})
         ev.case(common.chash([p, t]), False, classes=["class:e", "kind:e:shipped", "tool:" + t, "outcome:" + ("clean" if not res["v"] else res["v"][0].split(":")[0])])
         if res["v"]:
-            if f9_present and t == "exp2python" and not res["v"][0].startswith(("hang", "shipped-rejected")):
+            if f9_present and t == "exp2python" and res["v"][0].startswith("signal-"):
                 res["v"] = (F9_SIG, res["v"][1])
             fails.append({"sig": res["v"][0], "what": "[shipped %s %s] %s" % (os.path.basename(p), t, res["v"][1]), "data": open(p, "rb").read(),
                           "tool": t, "opts": [], "kind": "e:shipped", "path": p})
@@ -472,7 +473,7 @@ def main(tier, seed):
         except OSError:
             pass
     big = [open(p, "rb").read() for p in data[:3]] if tier == "thorough" else [open(data[0], "rb").read()]
-    n_cases = 9000 if tier == "quick" else 150000
+    n_cases = 14000 if tier == "quick" else 150000
     rseeds = M._hyp_collect(__import__("hypothesis").strategies.integers(0, 2 ** 48), common.sub_seed(seed, PROP, "cases"), n_cases)
     rseeds = list(dict.fromkeys(rseeds))
     chunks = [rseeds[i::64] for i in range(64)]
@@ -541,7 +542,7 @@ def main(tier, seed):
     for fid in ev.known:
         e = [x for x in findings.entries if x.get("id") == fid]
         common.print_known(PROP, e[0]["what"] if e else fid)
-    min_cases = 4000 if tier == "quick" else 60000
+    min_cases = 8000 if tier == "quick" else 80000
     if ev.evaluations < min_cases and rc == 0:
         print("machinery failure: only %d cases executed" % ev.evaluations)
         rc = 3
